@@ -231,4 +231,10 @@ def format_exc(exc):
 def quiet_logging():
     """jsonrpclib logs every fault; keep stderr readable and dispatch fast."""
     import logging
+    import os
+    if os.environ.get("VERIF_LOGGING") == "debug":
+        # DEBUG is effective for the library's loggers (isEnabledFor / debug branches run), nothing is written
+        logging.getLogger().addHandler(logging.NullHandler())
+        logging.getLogger("jsonrpclib").setLevel(logging.DEBUG)
+        return
     logging.disable(logging.CRITICAL)
